@@ -27,6 +27,7 @@ vf_i32 VFN(vf_id)(vf_i32 mi, vf_i32 r);
 vf_i32 VFN(vf_sid)(vf_i32 si);
 vf_i32 VFN(vf_flags)(void);
 vf_i32 VFN(vf_introspect)(void);
+vf_i32 VFN(vf_visit)(void);
 void VFN(vf_enq)(vf_i32 kind, vf_i32 p);
 void VFN(vf_execq)(void);
 void VFN(vf_exec1)(void);
